@@ -425,7 +425,7 @@ fn ins_plane(rep: &Report, per_form: usize, core: bool, seed: u64) {
             }
             let line = ins.ir();
             let mn = mn_of(&ins);
-            let out = check_ins(&mut b, &ins, &line, &pre, &mut agg, core, "C02 instruction plane", &|c| format!("ins:{}:{}", mn, c));
+            let out = check_ins(&mut b, &ins, &line, &pre, &mut agg, core, "C02 instruction plane", &|c| Some(format!("ins:{}:{}", mn, c)));
             loc.evals += 1;
             loc.distinct.insert(fnv64(format!("{}|{}", ins.class(), out.alt).as_bytes()));
             if j == 70 && it == 0 {
@@ -504,7 +504,7 @@ fn source_plane(rep: &Report, per_form: usize, core: bool, seed: u64) {
                 line = ins.ir();
             }
             let mn = mn_of(&ins);
-            let out = check_ins(&mut b, &ins, &line, &pre, &mut agg, core, "C02 source plane", &|c| format!("src:{}:{}", mn, c));
+            let out = check_ins(&mut b, &ins, &line, &pre, &mut agg, core, "C02 source plane", &|c| Some(format!("src:{}:{}", mn, c)));
             loc.evals += 1;
             loc.distinct.insert(fnv64(format!("src|{}|{}", ins.class(), out.alt).as_bytes()));
             if j == 5 && it == 1 {
